@@ -44,12 +44,12 @@ TEXT = {
   technique='Coq proof (list lemmas, pigeonhole) + exhaustive differential enumeration against real nextConfiguration',
  ),
  'C11': dict(
-  level='Machine-checked theorems (Coq) for ALL first/snapshot/last/TrailingLogs values: the compaction range starts at the first index, ends at or below the snapshot index and leaves at least '
-        'TrailingLogs entries; it is maximal; the reset on monotonic stores removes exactly what the store holds. Tie: real compactLogsWithTrailing on a node over a recording store, exhaustive 0..8^4, '
-        'plus the monitor on the DeleteRange actually issued. Partial: coverage "every index <= last is in the newest snapshot or the log" across crashes and InstallSnapshot is checked on node sequences '
-        '(C10/C02 components) and is known to fail after InstallSnapshot over a longer log (finding F3), it is not proved globally.',
-  note='Trusted: Coq kernel; harness store FirstIndex semantics (least key).',
-  technique='Coq proof (arithmetic, lia) + exhaustive differential sweep of compactLogsWithTrailing',
+  level='Machine-checked theorems (Coq): for ALL first/snapshot/last/TrailingLogs values the compaction range starts at the first index, ends at or below the snapshot index and leaves at least TrailingLogs entries, and is maximal; the reset on monotonic stores removes exactly what the store holds; '
+        'takeSnapshot (model tied to the real takeSnapshot) records exactly the FSM goroutine\'s last index and term, the COMMITTED configuration with its index and the FSM content, at an index not below the committed configuration\'s, and afterwards the log has lost at most one range entirely at or below the snapshot index leaving TrailingLogs entries (C11_snapshot_records_committed_state); it is refused while the committed configuration entry has not reached the FSM. '
+        'Tie: real compactLogsWithTrailing exhaustive 0..8^4; node sequences with takeSnapshot events incl. crash cuts (snapshot metadata, content and log diffed; monitors); a snapshot racing a configuration commit with the FSM held at a gate (monitored). '
+        'PARTIAL: the global statement "every index <= last is covered by the newest snapshot or present in the log" across InstallSnapshot is monitored, not proved, and has the known finding F3-ii (stale entries kept below an installed snapshot); concurrent interleavings of the snapshot goroutine are monitored (the model is sequential).',
+  note='Trusted: Coq kernel; harness store FirstIndex semantics (least key); the gate placed in the harness FSM for the race component.',
+  technique='Coq proof (compaction arithmetic; takeSnapshot characterisation) + exhaustive differential sweep of compactLogsWithTrailing + differential node sequences with snapshots + monitored snapshot/configuration race',
  ),
  'C04': dict(
   level='Machine-checked theorems (Coq) over the model of appendEntries for EVERY follower state (cached last index bounding the store) and EVERY request with consecutive indices, '
@@ -140,11 +140,13 @@ TEXT = {
   technique='Coq proof (processLogs stream order) + differential node sequences + monitored real-cluster histories',
  ),
  'C12': dict(
-  level='PARTIAL. Machine-checked theorem (Coq): after a successful InstallSnapshot (no store failure) the AppendEntries whose previous entry is the snapshot boundary passes the previous-entry check whatever stale/divergent/compacted log the follower held '
-        '(C12_snapshot_then_append_accepted) - the pinned tree violated this (F3-i, repaired by a fix: commit found and confirmed through this check). Leader-side round counting (replicateTo) and the bound in election timeouts are not proved: '
-        'probabilistic timers and scheduler behaviour cannot be exhibited by the model; they are measured on real clusters (convergence within 20 election timeouts after a random fault period; InstallSnapshot-repeat counter).',
-  note='Trusted: Coq kernel; wall clock for the convergence scenarios.',
-  technique='Coq proof (follower-side progress after snapshot install) + exhaustive differential enumeration + measured real-timer convergence',
+  level='PARTIAL. Machine-checked theorems (Coq): (follower) after a successful InstallSnapshot the AppendEntries whose previous entry is the snapshot boundary is accepted whatever stale/divergent/compacted log the follower held (the pinned tree violated this: F3-i, repaired); '
+        '(leader, Model/Replicate.v) a rejected AppendEntries strictly lowers nextIndex while above 1 and to at most the follower\'s last index + 1, an accepted one raises it past what was sent and reports that index, a successful InstallSnapshot moves it past the snapshot; '
+        '(BOTH SIDES COMPOSED, Model/Converge.v - C12_catch_up_converges) for ANY hole-free follower log (stale, divergent, longer or shorter than the leader\'s) under the Log Matching premise, one replicateTo call ends within next0+n trips with the follower holding the leader\'s term at every index, nextIndex = n+1 and n reported to the commitment; the handler never panics. '
+        'Not proved: snapshot transfer inside the composed loop, store failures during catch-up, and the bound in election timeouts (probabilistic timers, scheduler) - measured on real clusters (convergence within 20 election timeouts after a random fault period). '
+        'Tie: enumeration on followers; the real replicateTo against a scripted follower; a real leader and a real follower joined by a transport, diffed against the composed model; real-timer convergence scenarios.',
+  note='Trusted: Coq kernel; wall clock for the convergence scenarios. Proofs/Converge*.v were written by a sub-agent against fixed model files; the first statement given to it was false and it refuted it (kept as a theorem).',
+  technique='Coq proof (leader-side progress lemmas, follower-side acceptance, composed convergence by a two-phase induction) + differential ties on real replicateTo / appendEntries + measured real-timer convergence',
  ),
  'C03': dict(
   level='PARTIAL. Machine-checked theorems (Coq) for the per-leadership and per-server facts leader completeness rests on: a new leader\'s commitment starts above everything its log held at election, so for ANY sequence of match reports its commit index is 0 or above the '
